@@ -511,7 +511,11 @@ pub fn core(rep: &Report, thorough: bool) {
     let sample_cookie = valid_cookie(b"c02-secret", 5, CLIENT, CK_NAME, CK_UUID, &ck_props());
     let all = specs(sample_cookie.len(), thorough);
     for s in [&all[0], &all[all.len() - 1]] {
-        assert_deterministic(&build(s, wall_secs()).0, "C02");
+        // (a subject that answers the same connection differently the second time is not a harness problem - the
+        // oracles above and below judge it; only if they find nothing is this run inconclusive)
+        if !is_deterministic(&build(s, wall_secs()).0) {
+            rep.inconclusive("two runs of the same C02 case differ");
+        }
     }
     let accepted = AtomicU64::new(0);
     let rejected = AtomicU64::new(0);
